@@ -573,7 +573,7 @@ class Fn:
         if k == 'BinaryOperator':
             op = n['opcode']
             l, r = n['inner']
-            if op in ('&&', '||') and has_side_effect(r):
+            if op in ('&&', '||') and has_side_effect(r) and not self.effect_free(r):
                 raise Unsupported('side effect in the right operand of ' + op + ' (short-circuit evaluation)')
             if op == ',':
                 self.ev(l, env)
@@ -881,6 +881,35 @@ class Fn:
         ev_ = f'({env["$trace"]} ++ [⟨"{fname}", [{", ".join(items)}], {rv}⟩])'
         env['$trace'] = self.bind('trace', ev_ if live == 'true' else f'(if {live} then {ev_} else {env["$trace"]})')
         return ret
+
+    def effect_free(self, n, depth=0):
+        """no store, no atomic operation, and every call is of a function assumed pure or of a unit function whose body is itself
+        effect free (reads only): evaluating such an operand although C would have skipped it changes nothing"""
+        if isinstance(n, list):
+            return all(self.effect_free(v, depth) for v in n)
+        if not isinstance(n, dict):
+            return True
+        k = n.get('kind')
+        if k == 'BinaryOperator' and n.get('opcode') == '=':
+            return False
+        if k in ('CompoundAssignOperator', 'AtomicExpr', 'VAArgExpr'):
+            return False
+        if k == 'UnaryOperator' and n.get('opcode') in ('++', '--'):
+            return False
+        if k == 'CallExpr':
+            c = strip(n['inner'][0])
+            nm = c.get('referencedDecl', {}).get('name') if c.get('kind') == 'DeclRefExpr' else None
+            real = self.fnalias_map.get(nm, nm)
+            if real in self.pure_calls:
+                pass
+            elif nm in self.tu.fns and depth < 4 and nm not in self.externs:
+                body = [x for x in self.tu.fns[nm]['inner'] if x['kind'] == 'CompoundStmt']
+                if not body or not self.effect_free(body[0], depth + 1):
+                    return False
+            else:
+                return False
+            return all(self.effect_free(a, depth) for a in n['inner'][1:])
+        return all(self.effect_free(v, depth) for v in n.get('inner', []) if isinstance(v, (dict, list)))
 
     def body_calls_extern(self, n, seen=None):
         seen = seen if seen is not None else set()
@@ -1590,6 +1619,8 @@ def load(path, extra):
                 if not any(f.get('isBitfield') for f in c['inner'] if f['kind'] == 'FieldDecl'):
                     tu.raw_records[c.get('name', '') or ('<anon@%s>' % c['id'])] = [
                         (f['name'], f['type'].get('desugaredQualType', f['type']['qualType'])) for f in c['inner'] if f['kind'] == 'FieldDecl' and 'name' in f]
+                if not c.get('name'):
+                    pending['$last_anon'] = '<anon@%s>' % c['id']
                 tu.field_order[id(rec_)] = [f['name'] for f in c['inner'] if f.get('kind') == 'FieldDecl' and 'name' in f]
                 tu.records[c.get('name', '') or ('<anon@%s>' % c['id'])] = rec_
                 pending[c['id']] = rec_
@@ -1609,7 +1640,11 @@ def load(path, extra):
                 if tb is not None:
                     tu.tables[c['name']] = tb
                 else:
-                    tu.globals[c['name']] = c['type'].get('desugaredQualType', c['type']['qualType'])
+                    gq = c['type'].get('desugaredQualType', c['type']['qualType'])
+                    if 'unnamed' in gq and pending.get('$last_anon') in tu.raw_records:
+                        # `static struct { ... } kernel;`: the object's type is the anonymous record declared just before it
+                        tu.raw_records[clean(gq).replace('struct ', '', 1)] = tu.raw_records[pending['$last_anon']]
+                    tu.globals[c['name']] = gq
         except (KeyError, TypeError, IndexError):
             continue
     for k, v in list(tu.typedefs.items()):
